@@ -26,7 +26,7 @@ from pyvc.pool import collect, run_jobs
 from pyvc.report import VENV_PY
 from pyvc.values import Obj, SOpt, SU, U, to_z3, ustr, wrap
 
-LEVEL = "proof"
+LEVEL = "other"
 API = "iodata.api"
 OPS = ("load_one", "load_many", "dump_one", "dump_many")
 
